@@ -230,6 +230,12 @@ func checkC12(ck *Check) {
 	// R8 node emptiness (what the reapers act on) is judged from the scanned group's own pods only
 	// (decided as C01.R6)
 	ck.emptinessShape("C12.R8")
+	// R9 the one condition that stops the scan for every group — a node that is not in its cloud
+	// group — is judged against the group's whole instance list (decided as C19.R4): a member left out
+	// of Nodes() turns an ordinary failure on it into the fatal one
+	if a.AwsBelongs != nil && a.AwsNodes != nil {
+		ck.belongsShape("C12.R9")
+	}
 }
 
 func (ck *Check) listerWiring(rule string) {
